@@ -34,7 +34,7 @@ class Executor(ExprMixin, StmtMixin, CallMixin, ContractMixin):
     def __init__(self, source=None):
         self.src = source or Source()
         self.classes = Classes(self.src)
-        self.feas_timeout_ms = 1500
+        self.feas_timeout_ms = 300
         self.max_paths = 400
         self._spec_asts = {}
         self.reset()
@@ -241,7 +241,7 @@ class Executor(ExprMixin, StmtMixin, CallMixin, ContractMixin):
             # a deterministic raises clause must not have applied
             for r in c.raises:
                 if r.when is not None:
-                    t = self.eval_contract_expr(self.pre_state, r.when, None, None, use_env=self.entry_env)
+                    t = self.eval_contract_expr(self.pre_state, r.when, None, None, use_env=self.entry_env, sink=st)
                     self.oblige(st, z3.Not(t), 'post', 'no-raise:' + r.label, carries=r.carries, node=node,
                                 info={'claim': 'returns normally only if not (%s)' % r.when})
             for cl in c.ensures:
@@ -283,7 +283,7 @@ class Executor(ExprMixin, StmtMixin, CallMixin, ContractMixin):
                 if r.when is None:
                     whens = None
                     break
-                whens.append(self.eval_contract_expr(self.pre_state, r.when, None, None, use_env=self.entry_env))
+                whens.append(self.eval_contract_expr(self.pre_state, r.when, None, None, use_env=self.entry_env, sink=st))
             if whens is not None:
                 lab = 'raises-only-when:' + cands[0].label
                 self.oblige(st, z3.Or(whens), 'exc-post', lab, carries=cands[0].carries, node=node,
@@ -291,7 +291,7 @@ class Executor(ExprMixin, StmtMixin, CallMixin, ContractMixin):
             for r in cands:
                 guard = z3.BoolVal(True)
                 if r.when is not None:
-                    guard = self.eval_contract_expr(self.pre_state, r.when, None, None, use_env=self.entry_env)
+                    guard = self.eval_contract_expr(self.pre_state, r.when, None, None, use_env=self.entry_env, sink=st)
                 for cl in r.then:
                     t = self.eval_contract_expr(st, cl.expr, None, self.pre_state, use_env=env)
                     self.oblige(st, z3.Implies(guard, t), 'exc-post', r.label + ':' + cl.label,
